@@ -1,6 +1,6 @@
 """Per-property checks: case selection, relevant stages, oracles, known-finding classification,
 evidence and the VIOLATION contract."""
-import os, json, time, re, random, subprocess, hashlib
+import itertools, os, json, time, re, random, subprocess, hashlib
 import runner, coqbuild, cases as casegen
 from runner import VERIF, BUILD, COQ
 
@@ -19,30 +19,34 @@ PROPS = {
     'C01': P(flags=['d', 'D', 's', 'S', 'w', 'W', 'r', 'i', 'g', 'e', 'x', 'ns', 'ne'], lang=False, stages=ALL_LOCAL,
              theorems=('C01.v', None), n=(2500, 60000)),
     'C02': P(flags=['g', 'x', 'e'], lang=True, stages=ALL_LOCAL, theorems=('C02.v', None), n=(1500, 40000), thresholds=False),
-    'C03': P(flags=['d', 'D', 's', 'S', 'w', 'W', 'i', 'e', 'x', 'g', 'r'], need_any=['d', 'D', 's', 'S', 'w', 'W'], lang=True,
+    'C03': P(flags=['d', 'D', 's', 'S', 'w', 'W', 'i', 'e', 'x', 'g', 'r', 'ns', 'ne'], need_any=['d', 'D', 's', 'S', 'w', 'W'], lang=True,
              stages=['clusters_k', 'clusters_r', 'trie', 'min', 'expr', 'final', 'out'], theorems=('C03.v', None), n=(1500, 40000)),
-    'C04': P(flags=['i', 'g', 'x', 'e'], force=['i'], lang=True, stages=['norm', 'clusters_g', 'trie', 'min', 'expr', 'final', 'out'],
+    'C04': P(flags=['i', 'g', 'x', 'e', 'ns', 'ne'], force=['i'], lang=True, stages=['norm', 'clusters_g', 'trie', 'min', 'expr', 'final', 'out'],
              theorems=('C04.v', None), n=(1500, 40000), alphabets=['cased', 'ab', 'mixed', 'bound'], thresholds=False),
-    'C05': P(flags=['r', 'd', 'w', 's', 'i', 'e', 'x', 'g'], force=['r'], lang=True, stages=['clusters_r', 'trie', 'min', 'expr', 'final', 'out'],
+    'C05': P(flags=['r', 'd', 'w', 's', 'i', 'e', 'x', 'g', 'ns', 'ne'], force=['r'], lang=True, stages=['clusters_r', 'trie', 'min', 'expr', 'final', 'out'],
              theorems=('C05.v', None), n=(1500, 40000)),
-    'C06': P(flags=['x', 'g', 'e', 'd', 'w', 's', 'i', 'r', 'D', 'W', 'S'], need_any=['x', 'g', 'e'], lang=True, stages=['out'],
+    'C06': P(flags=['x', 'g', 'e', 'd', 'w', 's', 'i', 'r', 'D', 'W', 'S', 'ns', 'ne'], need_any=['x', 'g', 'e'], lang=True, stages=['out'],
              theorems=('C06.v', None), n=(1500, 40000)),
     'C07': P(flags=casegen.FLAGS, lang=False, stages=ALL_LOCAL + ['selfcheck'], theorems=('C07.v', None), n=(3000, 80000)),
-    'C08': P(flags=['ns', 'ne', 'x', 'i', 'd', 'w', 'r', 'g'], need_any=['ns', 'ne'], lang=False, stages=['expr', 'final', 'out', 'selfcheck'],
+    'C08': P(flags=['ns', 'ne', 'x', 'i', 'd', 'w', 'r', 'g'], need_any=['ns', 'ne'], lang=True, stages=['expr', 'final', 'out', 'selfcheck'],
              theorems=('C08.v', None), n=(2000, 50000)),
     'C09': P(flags=['d', 'D', 's', 'S', 'w', 'W'], need_any=['d', 'D', 's', 'S', 'w', 'W'], lang=True, stages=['clusters_k'],
              theorems=('C09.v', None), n=(600, 5000), special='c09'),
-    'C11': P(flags=['e', 'E', 'r', 'x', 'd', 'w', 'g', 'i'], need_any=['e', 'E'], lang=True, stages=['expr', 'final', 'out'],
+    'C11': P(flags=['e', 'E', 'r', 'x', 'd', 'w', 'g', 'i', 'ns', 'ne'], need_any=['e', 'E'], lang=True, stages=['expr', 'final', 'out'],
              theorems=('C11.v', None), n=(1500, 40000), alphabets=['astral', 'bound', 'marks', 'mixed', 'cased', 'ws']),
-    'C13': P(flags=['r', 'd', 'w', 'x', 'g', 'e', 'i'], lang=False, stages=['clusters_r', 'trie', 'out'], theorems=('C13.v', None),
+    'C13': P(flags=['r', 'd', 'w', 'x', 'g', 'e', 'i', 'ns', 'ne'], lang=False, stages=['clusters_r', 'trie', 'out'], theorems=('C13.v', None),
              n=(2000, 50000), alphabets=['a', 'ab', 'abc', 'ab.-', 'meta', 'digits']),
     'C15': P(flags=casegen.FLAGS, force=['c'], lang=False, stages=['out', 'selfcheck'], theorems=('C15.v', None), n=(2500, 60000)),
-    'C16': P(flags=['r', 'd', 'w', 's', 'g'], lang=True, stages=['trie', 'min', 'expr', 'out'], theorems=('C16.v', None), n=(1500, 40000)),
+    'C16': P(flags=['r', 'd', 'w', 's', 'g', 'ns', 'ne'], lang=True, stages=['trie', 'min', 'expr', 'out'], theorems=('C16.v', None), n=(1500, 40000)),
     'C10': P(flags=casegen.FLAGS, lang=False, stages=['norm', 'clusters_r', 'min', 'expr', 'out', 'selfcheck'], theorems=('C10.v', None), n=(400, 6000), runner='c10'),
     'C12': P(flags=casegen.FLAGS, lang=False, stages=[], theorems=('C12.v', None), n=(160, 4000), runner='c12'),
     'C14': P(flags=casegen.FLAGS, lang=False, stages=[], theorems=('C14.v', None), n=(600, 20000), runner='c14'),
     'C17': P(flags=[], lang=False, stages=[], theorems=('C17.v', None), n=(600, 20000), runner='c17'),
 }
+
+# number of dense small-alphabet cases (quick, thorough) per property
+DENSE = {'C01': (6000, 120000), 'C02': (8000, 150000), 'C03': (4000, 60000), 'C05': (6000, 120000), 'C08': (6000, 120000),
+         'C16': (8000, 150000), 'C07': (4000, 60000), 'C13': (3000, 40000), 'C06': (3000, 40000)}
 
 # ------------------------------------------------------------------------------------------
 def theorem_names(vfile):
@@ -111,6 +115,37 @@ def select_cases(pid, spec, tier, seed):
                 if 'E' in fl and 'e' in fl:
                     fl.remove('e')
                 fam.append({'tcs': sub, 'f': ','.join(fl), 'mr': frnd.choice([1, 1, 2]), 'ms': frnd.choice([1, 1, 2]), 'alpha': 'exhaustive'})
+    if pid in DENSE:
+        # dense small-alphabet sets: 4-8 words drawn from a small universe — this is what exercises the rarer
+        # rewrite rules of union/concatenate and the Hopcroft splits (seeds C16c, C16d, C08c need >= 4-6 related words)
+        drnd = random.Random(seed * 31 + 99 + int(hashlib.sha256(pid.encode()).hexdigest()[:4], 16))
+        nd = DENSE[pid][0 if tier == 'quick' else 1]
+        unis = []
+        for sigma, k in (('abc', 3), ('ab', 4), ('a1', 3), ('ab1 ', 2)):
+            u = []
+            for n_ in range(1, k + 1):
+                for w in itertools.product(sigma, repeat=n_):
+                    u.append([ord(ch) for ch in w])
+            unis.append(u)
+        for j in range(nd):
+            u = unis[0] if drnd.random() < 0.6 else drnd.choice(unis)
+            sub = drnd.sample(u, min(len(u), drnd.randint(4, 8)))
+            fl = list(spec.get('force') or [])
+            if drnd.random() < 0.5:
+                fl += [f for f in drnd.sample(spec['flags'], min(drnd.randint(1, 2), len(spec['flags']))) if f not in fl]
+            if spec.get('need_any') and not any(f in fl for f in spec['need_any']):
+                fl.append(drnd.choice(spec['need_any']))
+            if 'ns' in spec['flags'] and drnd.random() < 0.3:
+                # both anchors off: the only configuration in which the self-check and the fallback run
+                fl += [f for f in ('ns', 'ne') if f not in fl]
+                if drnd.random() < 0.5:
+                    # ... and the fallback must keep class conversion, verbose layout and repetitions (seeds C05c, C08d)
+                    u = unis[2]
+                    sub = drnd.sample(u, min(len(u), drnd.randint(3, 6)))
+                    fl += [f for f in (drnd.choice(['d', 'w']), drnd.choice(['x', 'r', 'x'])) if f in spec['flags'] and f not in fl]
+            if 'E' in fl and 'e' in fl:
+                fl.remove('e')
+            fam.append({'tcs': sub, 'f': ','.join(fl), 'mr': 1, 'ms': 1, 'alpha': 'dense'})
     allc = corpus + out + fam
     for i, c in enumerate(allc):
         c['id'] = i
@@ -163,6 +198,14 @@ def classify(case, r, fail, st):
         if has_skew:
             return 'K3'
         return None
+    if kind == 'lang_anchor':
+        # the two builds differ only through a known defect of one of them: epsilon lost by the anchored build (K4),
+        # or the anchored build over-matches through trie widening while the anchor-free fallback is exact (K1)
+        if fail['witness'] == [] and v.get('k4'):
+            return 'K4'
+        if 'r' in fl and v.get('k1_merge'):
+            return 'K1'
+        return None
     if kind == 'find':
         if v.get('k4') and fail.get('t') == []:
             return 'K4'
@@ -202,6 +245,14 @@ def f_lang(case, r):
     if isinstance(l, dict) and 'witness_bytes' in l:
         return [{'kind': 'lang', 'witness': l['witness'], 'out_accepts': l['out_accepts'],
                  'detail': 'language differs from the specification on %s (pattern %s it)' % (l['witness'], 'accepts' if l['out_accepts'] else 'rejects')}]
+    return []
+
+def f_lang_anchor(case, r):
+    l = r.get('verdicts', {}).get('lang_anchor')
+    if isinstance(l, dict) and 'witness' in l:
+        return [{'kind': 'lang_anchor', 'witness': l['witness'], 'out_accepts': l['out_accepts'],
+                 'detail': 'without the anchor(s) the body %s %s in full, the same build with both anchors (%s) does not agree'
+                           % ('matches' if l['out_accepts'] else 'does not match', l['witness'], ''.join(map(chr, l.get('anchored', []))))}]
     return []
 
 def f_find(case, r):
@@ -349,7 +400,7 @@ ORACLES = {
     'C05': [f_panic, f_compile, f_lang],
     'C06': [f_panic, f_compile, f_flag_prefix, f_groups, f_lang],
     'C07': [f_panic, f_compile],
-    'C08': [f_panic, f_anchor_syntax, f_find],
+    'C08': [f_panic, f_anchor_syntax, f_find, f_lang_anchor],
     'C09': [f_panic, f_compile, f_unmatched, f_lang],
     'C11': [f_panic, f_ascii, f_lang],
     'C13': [f_panic, f_thresholds],
@@ -467,6 +518,10 @@ def correspondence(pid, spec, res, st, allc, impl=None):
         if 'norm' in spec['stages']:
             diffs += [(s, a, b) for (s, a, b) in e2e if s in ('norm', 'panic')]
         if 'out' in spec['stages'] and not loc and e2e and e2e[0][0] == 'out':
+            diffs.append(e2e[0])
+        # 'final' has no stage-local replay: when every earlier stage agrees end to end, a difference in the
+        # chosen final expression is a difference of the self-check/fallback step itself
+        if ('final' in spec['stages'] or 'out' in spec['stages']) and not loc and e2e and e2e[0][0] == 'final':
             diffs.append(e2e[0])
         if '!CRASH' in m:
             diffs.append(('driver', '', m['!CRASH']))
@@ -603,6 +658,10 @@ def run_property(pid, tier, seed):
             diffs += [(s, a, b) for (s, a, b) in e2e if s in ('norm', 'panic')]
         if 'out' in spec['stages'] and not loc and e2e and e2e[0][0] == 'out':
             diffs.append(e2e[0])
+        # 'final' has no stage-local replay: when every earlier stage agrees end to end, a difference in the
+        # chosen final expression is a difference of the self-check/fallback step itself
+        if ('final' in spec['stages'] or 'out' in spec['stages']) and not loc and e2e and e2e[0][0] == 'final':
+            diffs.append(e2e[0])
         for s, a, b in diffs:
             stage_diffs[s] = stage_diffs.get(s, 0) + 1
             if first_diff is None:
@@ -659,6 +718,7 @@ def run_property(pid, tier, seed):
     if pid == 'C13':
         import extra
         unknown += [(c, {'out': None}, fl) for c, fl in extra.python_threshold_probe(res, seed)]
+        unknown += [(c, {'out': None}, fl) for c, fl in extra.builder_order_probe(res, seed)]
     res['stats'].update({'undecided_lang': undecided, 'engine_inconsistencies': incons, 'known_class_failures': known_counts})
     # distribution
     keys = set(); nontriv = set(); flagc = {}; alph = {}
@@ -708,16 +768,18 @@ def run_property(pid, tier, seed):
     for kf in KNOWN['known']:
         if pid not in kf['properties']:
             continue
-        c = dict(kf['witness']); c['id'] = 0; c['lang'] = True
+        # a finding may show differently under different properties: an optional per-property witness
+        bp = (kf.get('by_property') or {}).get(pid) or kf
+        c = dict(bp['witness']); c['id'] = 0; c['lang'] = True
         r = runner.run_impl([c], threads=1).get(0, {})
         fs = []
         for f in ORACLES_ALL:
             fs += f(c, r)
         still = any(classify(c, r, f, st) == kf['id'] for f in fs)
-        res['known'][kf['id']] = {'still_fails': still, 'what': kf['what'], 'class_failures_in_run': known_counts.get(kf['id'], 0)}
+        res['known'][kf['id']] = {'still_fails': still, 'what': bp['what'], 'class_failures_in_run': known_counts.get(kf['id'], 0)}
     return res
 
-ORACLES_ALL = [f_panic, f_compile, f_unmatched, f_lang, f_find]
+ORACLES_ALL = [f_panic, f_compile, f_unmatched, f_lang, f_find, f_lang_anchor]
 
 def crashed(pid, tier, seed, e):
     return {'pid': pid, 'tier': tier, 'seed': seed, 'broken': ['check crashed: %r' % (e,)], 'violations': [], 'known': {}, 'theorems': {}, 'names': [],
